@@ -324,7 +324,7 @@ bool is_number(jsoncons::string_view str)
                 }
                 break;
             case is_number_state::exponent: 
-                if ((c >= '0' && c <= '9') || c == '-')
+                if ((c >= '0' && c <= '9') || c == '-' || c == '+')
                 {
                     state = is_number_state::digits;
                     ++i;
